@@ -347,6 +347,18 @@ func c04key(r *vu.RNG) []byte {
 	for i := range b {
 		b[i] = alpha[r.Intn(len(alpha))]
 	}
+	if r.Chance(1, 10) {
+		// long keys with long common prefixes: partial keys of more than 63 and more than 318 nibbles
+		pl := []int{31, 32, 33, 40, 159, 160, 161}[r.Intn(7)]
+		p := make([]byte, pl)
+		for i := range p {
+			p[i] = byte(0x30 + i%7)
+		}
+		if r.Chance(1, 2) {
+			p[pl-1] ^= 0x0f
+		}
+		b = append(p, b...)
+	}
 	return b
 }
 
@@ -355,6 +367,9 @@ func c04value(r *vu.RNG, tiny bool) []byte {
 	l := lens[r.Intn(len(lens))]
 	if tiny {
 		l = r.Intn(3)
+	}
+	if !tiny && r.Chance(1, 40) {
+		l = []int{63, 65, 300, 16383, 16384, 16400}[r.Intn(6)]
 	}
 	b := r.Bytes(l)
 	if r.Chance(1, 6) { // repeated values: equal hashed values under different keys
@@ -378,6 +393,9 @@ func c04Gen(r *vu.RNG, n int, emit func(string)) {
 			nops := 1 + r.Intn(6)
 			if b == 0 {
 				nops = 1 + r.Intn(10)
+				if r.Chance(1, 12) {
+					nops = 20 + r.Intn(25) // a big state: full branches, deeper paths
+				}
 			}
 			if r.Chance(1, 12) {
 				nops = 0
